@@ -159,6 +159,11 @@ type Action struct {
 
 	// cancelctx: do not wait for the election to have stopped (the action is then only the cancellation)
 	NoWait bool `json:"no_wait,omitempty"`
+	// cancelctx with NoWait: the same goroutine calls Start again right after the cancellation
+	ThenStart bool `json:"then_start,omitempty"`
+	// cancelctx (timeline actions only): the Start context ends because its deadline passes at At
+	// (context.DeadlineExceeded), not by an explicit cancel()
+	ByDeadline bool `json:"by_deadline,omitempty"`
 
 	// disconnect / reconnect / closed: notifications delivered back to back behind this one
 	Then []string `json:"then,omitempty"`
